@@ -1,2 +1,3 @@
 import HmsProofs.Tables
 import HmsProofs.C07
+import HmsProofs.C06
